@@ -5,8 +5,8 @@ HARNESS = "harness/c01_roundtrip.py"
 MODE = "corpus"
 EXPLANATION = ("For every round-trip class of the spec corpus the repository's own generator output is executed symbolically together with the real EoWriter/EoReader: "
                "structure (string lengths, array counts, optional presence, case selection) is value-forked, all leaf values are solver variables over their whole range.")
-BOUNDS = {"quick": "corpus: every wire-unambiguous class of corpus/core plus the units of a VERIF_SEED-chosen sample of the generated pair corpus that the static classifier props/unambiguous.py accepts; strings of length 0..2 where the class has at most 400 structures (else 0..1; fixed-length ones at their length), arrays of 0, 1 or 2 elements (fixed at their length); integers/ordinals/code points over their full range",
-          "thorough": "core corpus plus ALL units of the generated pair corpus (pairs and triples) that the classifier accepts (about 60 %); per class the richest of (lens<=1,counts<=2) (lens<=2,counts<=2) (lens<=3,counts<=2) (lens<=3,counts<=3) whose structure count stays <= 6000 (the choice is in each job name)"}
+BOUNDS = {"quick": "corpus: every wire-unambiguous class of corpus/core plus the units of a VERIF_SEED-chosen sample of the generated pair corpus that the static classifier props/unambiguous.py accepts; strings of length 0..2 where the class has at most 400 structures (else 0..1; fixed-length ones at their length), arrays of 0, 1 or 2 elements (fixed at their length); integers/ordinals/code points over their full range; additionally: 3..5 elements where counts are inferred from remaining bytes, strings / arrays of 252 (255 for byte-counted) symbolic elements for the length-bound classes, selected classes generated in isolated mini trees (counts 0..4), a second object of the class after a first went through the whole cycle",
+          "thorough": "core corpus plus ALL units of the generated pair corpus (pairs and triples) that the classifier accepts (about 60 %); per class the richest of (lens<=1,counts<=2) (lens<=2,counts<=2) (lens<=3,counts<=2) (lens<=3,counts<=3) whose structure count stays <= 6000 (the choice is in each job name); the same additional job families as quick (3..8 inferred elements, second objects for classes up to 40 structures)"}
 OUTSIDE = "specifications not in the corpus; longer strings and arrays; wire-ambiguous specs (C01's own quantifier excludes them)"
 ASSUMPTIONS = ["validity predicate of C01: cp1252-encodable strings, no y-diaeresis where sanitised or padded, no '~' in encoded strings, present optionals serialize to at least one byte, "
                "elements of unbounded delimited arrays begin with a non-empty first chunk (otherwise indistinguishable from end of data)"]
